@@ -673,26 +673,53 @@ fn main() {
                 ("first-rise".into(), "⊢⍏ []\n".into(), vec![], vec!["[]".into()]),
                 ("first-rise".into(), "F ← ⊢⍏\nF []\n".into(), vec![], vec!["[]".into()]),
             ];
-            // bare reproducers of the defects found so far (stable keys for the known-findings file)
+            // regression corpus, replayed first: bare reproducers of every defect found so far
+            // (repaired ones must stay repaired: their keys are no longer known findings;
+            //  open ones give stable keys for the known-findings file)
             for (rule, src, empty) in [
+                // repaired by 1f3e8d8 / 2d75a21 (fused first-min / last-max index)
                 ("last-rise", "⊣⍏ [1 2]", false),
+                ("last-rise", "⊣⍏ \"ab\"", false),
+                ("last-rise", "⊣⍏ [5 5]", false),
                 ("last-rise", "⊣⍏ \"\"", true),
+                ("first-rise", "≍.⊢⍏↘1 @a", true),
+                ("first-fall", "⊢⍖ []", true),
+                ("last-fall", "⊣⍖ []", true),
+                // repaired by 9411123 (fused all-same / one-unique on empty rows)
                 ("all-same-rot", "≍↻1. ↯2_0 0", true),
+                ("all-same-rot-neg", "≍↻¯1.⊟. {}", true),
                 ("all-same-by", "≍⊸(↻1) ↯2_0 0", true),
+                ("all-same-on", "≍⟜(↻1) ↯2_0 0", true),
                 ("all-same-stencil", "/×⧈≍ ↯2_0_2 0", true),
+                ("all-same-le", "≤1⧻◴ ↯3_0 0", true),
+                ("one-unique-eq", "=1⧻◴ ↯2_0_2 0", true),
+                ("one-unique-eq", "=1⧻◴ ↯0_3 0", true),
+                ("one-unique-ne", "≠1⧻◴ ↯3_0 0", true),
+                // repaired by 8848223 (fused first / last where)
+                ("first-where", "⊢⊚ [5 2 ¯1]", false),
+                ("last-where", "⊣⊚ [¯2 ¯2 5]", false),
+                ("last-where", "⍣(⍆⊣⊚)0 [¯2 1 5]", false),
+                ("len-where", "⧻⊚ [1 ¯1]", false),
+                // repaired by 9703aa4 (sortedness mark of a scalar divided by an array)
+                ("pow-neg1", "⍆ⁿ¯1 [5 ¯2]", false),
+                // still open
+                ("transpose3", "≡(⍉⍉⍉) ↯2_3_2⇡12", false),
                 ("reduce-table", "/↥⊞- [] ↯2_2_2⇡8", true),
+                ("reduce-table", "/↥⊞-ℂ0 [] [¯1 5]", true),
                 ("conjoin-inventory", "/◇⊂⍚(⊂0) []", true),
+                ("conjoin-inventory", "/◇⊂⍚⇌¤ @a", false),
                 ("reduce-content", "≡(¤/◇⊂) []", true),
                 ("split-by-scalar-lit", "⊜□≠@ . [1 2]", false),
                 ("split-by-scalar-lit", "⊜□≠@ . @a", false),
                 ("split-by-scalar-lit", "⊜⧻≠0. 5", false),
                 ("split-by-scalar-lit", "⊜⧻≠0. {1 2}", false),
                 ("square-abs", "×.⌵ [ℂ3 2 ℂ1 2]", false),
-                ("first-where", "⊢⊚ [5 2 ¯1]", false),
+                ("complex-i", "+×i NaN 2", false),
                 ("memberof-range-deshape", "∊♭₂⇡ [3 4] \"abc\"", false),
             ] {
                 progs.push((rule.to_string(), format!("# Experimental!\n{src}\n"), vec![], if empty { vec!["[]".into()] } else { vec![] }));
             }
+            let regression = progs.len();
             for _ in 0..n {
                 let p = gen_prog(&mut r);
                 let args: Vec<Value> = (0..p.nargs).map(|_| gen_value(&mut r, &cfg, 0)).collect();
@@ -771,7 +798,7 @@ fn main() {
                 }
             }
             let pr: Vec<String> = per_rule.iter().map(|(k, v)| format!("{}:[{},{}]", jstr(k), v.0, v.1)).collect();
-            println!("{{\"summary\":true,\"programs\":{},\"reference_ok\":{},\"reference_err\":{},\"violations\":{},\"converse\":{},\"corpus_items\":{},\"corpus_reference_ok\":{},\"per_rule_ok_err\":{{{}}}}}",
+            println!("{{\"summary\":true,\"regression_programs\":{regression},\"programs\":{},\"reference_ok\":{},\"reference_err\":{},\"violations\":{},\"converse\":{},\"corpus_items\":{},\"corpus_reference_ok\":{},\"per_rule_ok_err\":{{{}}}}}",
                 progs.len(), a_ok, a_err, viol, conv, corpus_n, corpus_ok, pr.join(","));
         }
         _ => {
